@@ -818,6 +818,22 @@ def oracle_routes(case):
         checks.append(('two loci: E[L3 + L4] after the per-locus marginals = E[H]', used2.moment(1, (R.SumReward([l3, l4]),)), used2.tree_height.mean, 1e-9))
         checks.append(('two loci: E[L3] after the per-locus marginals vs a fresh object', used2.moment(1, (l3,)), fresh2.moment(1, (l3,)), 1e-12))
         checks.append(('two loci: Var[L3] after the per-locus marginals vs a fresh object', used2.moment(2, (l3, l3)), fresh2.moment(2, (l3, l3)), 1e-12))
+    # the per-bin accumulation of the SFS distribution through its two documented routes (accumulate for all bins, get_accumulation for
+    # one bin) with NON-DEFAULT center / permute: raw second moments accumulate to m2, centred ones to var, and both routes agree
+    nt_ = c.lineage_config.n
+    if nt_ <= 5 and not case.get('two_locus_history'):
+        sf_ = c.sfs
+        ts_ = [T, 2 * T + 0.5]
+        for cen_, prm_ in ((False, True), (True, True), (False, False)):
+            all_ = np.asarray(sf_.accumulate(2, ts_, center=cen_, permute=prm_))
+            for i_ in range(1, nt_):
+                one_ = np.asarray(sf_.get_accumulation(2, i_, ts_, center=cen_, permute=prm_)).ravel()
+                for j_, t_ in enumerate(ts_):
+                    checks.append((f'sfs.accumulate(2, {ts_}, center={cen_}, permute={prm_})[{i_}] at {t_} vs sfs.get_accumulation(2, {i_}, ..., center={cen_}, permute={prm_})',
+                                   float(all_[i_][j_]), float(one_[j_]), 1e-10))
+                    ri_ = R.UnfoldedSFSReward(i_)
+                    checks.append((f'sfs.accumulate(2, {ts_}, center={cen_}, permute={prm_})[{i_}] at {t_} vs Coalescent.moment(2, (SFS_{i_}, SFS_{i_}), center={cen_})',
+                                   float(all_[i_][j_]), c.moment(2, (ri_, ri_), end_time=t_, center=cen_), 1e-9))
     # reward tuples
     rs = [mk_reward(r) for r in case['rewards']]
     k = len(rs)
